@@ -1,9 +1,10 @@
 // filedrive: correspondence driver for C19 (nsq_to_file).
-//   (a) scripted in-process runs of the real FileLogger.router() through the verif
-//       init-driver binary (nsq_to_file_verif), under strace: the observed trace of file
-//       operations and FINs is judged against the model and by the property monitor;
-//   (b) black-box runs of the real nsq_to_file binary against a real nsqd with
-//       SIGTERM / SIGHUP / SIGKILL at generated instants.
+//
+//	(a) scripted in-process runs of the real FileLogger.router() through the verif
+//	    init-driver binary (nsq_to_file_verif), under strace: the observed trace of file
+//	    operations and FINs is judged against the model and by the property monitor;
+//	(b) black-box runs of the real nsq_to_file binary against a real nsqd with
+//	    SIGTERM / SIGHUP / SIGKILL at generated instants.
 package main
 
 import (
